@@ -43,11 +43,16 @@ func (db *DB) Open(readOnly bool) error {
 	db.boltOptions.ReadOnly = readOnly
 	db.boltOptions.NoStatistics = true
 
+	err = db.openBolt()
+	if err != nil {
+		return err
+	}
+
 	if readOnly {
 		db.mode = mode.ReadOnly
 	}
 
-	return db.openBolt()
+	return nil
 }
 
 func (db *DB) openBolt() error {
